@@ -52,6 +52,56 @@ PROPS = {
         "assumptions": ROUTER_ASSUMPTIONS,
         "min_outcomes": 6,
     },
+    "C12": {'level': 'exploration',
+     'technique': 'exhaustive enumeration of configurations x token edit families through the real request path against an independent JWT reference (bounded '
+                  'model checking of an input/configuration space)',
+     'engine': 'vmc',
+     'level_text': 'Bounded exhaustive exploration: 6 secrets x HS256/384/512 x two payload types behind a one-route application with a pinned clock; per '
+                   'configuration ~110 payloads issued by the real JWT::issue (full product of integer exp/nbf/iat at now-1/now/now+1, negative / fractional / '
+                   'float / non-numeric claims) plus ~40 payload texts signed by the reference; per accepted token the complete edit families (part counts, '
+                   'signature lengths and encodings, re-signing with every other secret and algorithm, ~40 header variants each signed / wrongly signed / '
+                   'unsigned, where the token is carried, methods) and, for selected tokens (quick) or all accepted ones (thorough), EVERY single-character '
+                   'substitution over base64url + `.=+/` at every position plus every deletion / insertion; all Authorization strings of <= 4 (5) symbols over a '
+                   '7-symbol alphabet. Each case runs read -> router -> fang -> handler -> send on the real code and is compared with an in-harness recomputation.',
+     'level_note': 'Trusted: the SHA-2 compression functions of the `sha2` crate (HMAC construction, base64url, JSON reading, decimal comparison of time claims '
+                   'and the token grammar are re-implemented in harness/src/refmodel/{jwt,b64}.rs and bound to Python hmac+hashlib by 18 fixed vectors checked at '
+                   'start-up). Not covered: secrets, payloads and header texts outside the alphabets, tokens that differ from a valid one in more than one '
+                   'character, `get_token_by` customisation, requests larger than the 1 KiB read buffer.',
+     'jobs': {'quick': 8, 'thorough': 16},
+     'min_outcomes': 8,
+     'assumptions': ['features rt_tokio,sse,openapi on x86-64 Linux; other runtimes are not built',
+                     'the harness build uses opt-level 2 with debug-assertions and overflow-checks on (profile `verif`), hooks enabled by --cfg ohkami_verif',
+                     'values outside the stated alphabets / bounds are not covered (DESIGN.md section 9)',
+                     'clock pinned through the H3 hook (ohkami::__verif__::set_clock); `exp` admits now iff now < exp, `nbf`/`iat` admit now iff value <= now, '
+                     'compared as exact decimals',
+                     'a correctly signed token whose header is not byte-identical to the issued one, a non-numeric time claim, duplicate member names, `bearer` in '
+                     'another case or with extra blanks, and payloads that do not fit the typed handler are NOT decided by the statement: counted as ambiguous, '
+                     'never as violations',
+                     'OPTIONS: only `handler did not run` is demanded',
+                     'refusal = handler not run and status >= 400 (the statement does not fix 400 vs 401)']},
+    "C13": {'level': 'exploration',
+     'technique': 'exhaustive enumeration of pair-list configurations x Authorization values through the real request path against an independent '
+                  'base64/credential reference (bounded model checking of an input/configuration space)',
+     'engine': 'vmc',
+     'level_text': 'Bounded exhaustive exploration: every ordered list of 1..3 distinct pairs over an 8-pair alphabet (empty parts, colon in password, non-ASCII, '
+                   'prefixes of each other), installed as BasicAuth and as [BasicAuth; N] (408 configurations); per configuration the base64 of every user x '
+                   'password combination in canonical and every near-miss encoding (no / half / extra padding, URL-safe alphabet, non-canonical last symbol), '
+                   'scheme and spacing variants, other schemes, non-UTF-8 credentials with the offending byte at every position, EVERY credential byte string of '
+                   '<= 5 (7) symbols over {u,p,:,q,ue,0xFF}, and every one-symbol substitution / deletion / insertion of every correct header value; GET and POST. '
+                   'Each case runs read -> router -> fang -> handler -> send on the real code.',
+     'level_note': 'Trusted: Rust std UTF-8 validation; base64 is re-implemented strictly in harness/src/refmodel/b64.rs (self-tested on RFC 4648 vectors and '
+                   'exhaustively against the base64 crate on short strings). Not covered: pairs outside the alphabet, user names containing a colon, several '
+                   'Authorization headers, requests larger than the read buffer.',
+     'jobs': {'quick': 8, 'thorough': 16},
+     'min_outcomes': 8,
+     'assumptions': ['features rt_tokio,sse,openapi on x86-64 Linux; other runtimes are not built',
+                     'the harness build uses opt-level 2 with debug-assertions and overflow-checks on (profile `verif`), hooks enabled by --cfg ohkami_verif',
+                     'values outside the stated alphabets / bounds are not covered (DESIGN.md section 9)',
+                     '`the base64 of user:password` is read as the canonical padded RFC 4648 section 4 text (RFC 7617); unpadded and URL-safe spellings must be '
+                     'refused',
+                     'right credentials under a scheme spelled in another case, with several blanks after the scheme, with blanks around the field value, or with '
+                     'non-zero unused bits in the last symbol are NOT decided by the statement: counted as ambiguous',
+                     'refusal = handler not run, status 401 and exactly one WWW-Authenticate header whose value starts with `Basic`']},
     "C14": {
         "level": "model_checking",
         "technique": "explicit enumeration of policies x route sets (method subsets) x declaration shapes x registration orders and of all simple and preflight requests; every response of the real router behind the real CORS fang is compared with a reference CORS model fed with the policy and the route table",
